@@ -290,8 +290,10 @@ class LocationTable:
             Location table entry.
         """
         with self.loc_t_lock:
-            return self.loc_t.get(gn_address, None)
-        return None
+            entry = self.loc_t.get(gn_address, None)
+            if entry is not None and not self._is_alive(entry, self._now()):
+                return None
+            return entry
 
     def ensure_entry(self, gn_address: GNAddress) -> LocationTableEntry:
         """
@@ -316,18 +318,35 @@ class LocationTable:
                 self.loc_t[gn_address] = entry
         return entry
 
+    @staticmethod
+    def _now() -> TST:
+        """Current time as a TST (millisecond resolution, like the timestamps of position vectors)."""
+        return TST.set_in_normal_timestamp_milliseconds(int(TimeService.time() * 1000))
+
+    def _is_alive(self, entry: LocationTableEntry, now: TST) -> bool:
+        """
+        Lifetime rule of a LocTE: itsGnLifetimeLocTE after the timestamp of its position vector.
+
+        TST arithmetic is modulo 2**32, so a timestamp (slightly) ahead of the local clock must not be
+        subtracted from it: such an entry is simply not old yet.  An entry that never received a position
+        vector (placeholder of a location-service lookup) has no timestamp to age and is kept.
+        """
+        tst = entry.position_vector.tst
+        if tst.msec == 0:
+            return True
+        return tst > now or (now - tst) <= self.mib.itsGnLifetimeLocTE * 1000
+
     def refresh_table(self) -> None:
         """
-        Removes the entries that have expired.
+        Refreshes the location table.
 
-        Temporarily solution following ETSI EN 302 636-4-1 V1.4.1 (2020-01). Section 8.1.3
+        Removes the entries whose lifetime (itsGnLifetimeLocTE) has elapsed.
         """
-        current_time = TST.set_in_normal_timestamp_seconds(
-            int(TimeService.time()))
+        current_time = self._now()
         with self.loc_t_lock:
             self.loc_t = {
                 gn: entry for gn, entry in self.loc_t.items()
-                if (current_time - entry.position_vector.tst) <= self.mib.itsGnLifetimeLocTE * 1000
+                if self._is_alive(entry, current_time)
             }
 
     def new_shb_packet(
@@ -600,8 +619,9 @@ class LocationTable:
             List of neighbours.
         """
         neighbours: list[LocationTableEntry] = []
+        now = self._now()
         with self.loc_t_lock:
             for _, entry in self.loc_t.items():
-                if entry.is_neighbour:
+                if entry.is_neighbour and self._is_alive(entry, now):
                     neighbours.append(entry)
         return neighbours
